@@ -290,7 +290,11 @@ fn add_final_probes(spec: &mut Spec, cfg: &Cfg, rng: &mut Rng) {
     // (Dead idle server connections left behind by server-side drops are flushed before this
     // phase by bb8's own reaper: fault runs use a short idle_timeout and a calm period longer
     // than idle_timeout + reaper period, which costs nothing in virtual time.)
-    let warm_last = String::from("main_done");
+    // first a look at the console with nobody connected: whatever is still marked in use now
+    // would be healed (and hidden) by the capacity probes that follow
+    let early = admin_client(989, "final", When::After { ev: "main_done".into(), delay_ms: 300 }, &["SHOW SERVERS", "SHOW POOLS"]);
+    spec.clients.push(early);
+    let warm_last = String::from("c989.done");
     let mut id = 900;
     for _ in 0..size {
         id += 1;
@@ -549,9 +553,74 @@ fn c04_idle_holders(rng: &mut Rng, thorough: bool) -> Spec {
     spec
 }
 
+/// C04 sub-family: the last thing that happens on a server connection is its client going away
+/// in the middle of a transaction, in a session, or with a broken message, while that client's
+/// *earlier* transactions ran on another connection of the same server (held by somebody else
+/// now). With nobody left, nothing may still be marked in use.
+fn c04_last_user_aborts(rng: &mut Rng) -> Spec {
+    let pool_size = rng.range(2, 3) as u32;
+    let mut cfg = single_pool("transaction", pool_size, 0);
+    cfg.set("connect_timeout", 60000);
+    // A: one transaction (on the only connection there is), then waits until B holds that one,
+    // opens a transaction of its own (on a second connection) and goes away inside it
+    let mut a = Prog::new(1);
+    for _ in 0..rng.range(1, 2) {
+        a.new_txn();
+        let s = a.select(1, 0, "");
+        a.simple(s);
+    }
+    a.steps.push(Step::Emit { ev: "a_warm".into() });
+    a.steps.push(Step::Wait { ev: "b_holds".into() });
+    a.new_txn();
+    let t = a.tag();
+    a.simple(format!("BEGIN /* {} */", t));
+    if rng.chance(0.7) {
+        let s = a.select(1, 0, "");
+        a.simple(s);
+    }
+    match rng.below(4) {
+        0 => a.steps.push(Step::Terminate),
+        1 => a.steps.push(Step::Drop { abort: false }),
+        2 => a.steps.push(Step::Drop { abort: true }),
+        _ => {
+            // Bind of a statement nobody prepared: PgCat answers with an error and drops the client
+            let tag = a.tag();
+            let t = a.t;
+            a.steps.push(Step::Send { msgs: vec![FrontMsg::B { portal: "".into(), stmt: "nosuch".into(), fmt: vec![], params: vec![Some(tag)], rfmt: vec![], binary_hex: false }, FrontMsg::E { portal: "".into(), max: 0 }, FrontMsg::S], rfq: None, cut: None, abort: false, txn: t });
+            a.steps.push(Step::Hold { until: None, max_ms: 300 });
+            a.steps.push(Step::Drop { abort: false });
+        }
+    }
+    let mut b = Prog::new(2);
+    b.new_txn();
+    let t = b.tag();
+    b.simple(format!("BEGIN /* {} */", t));
+    let s = b.select(1, 0, "");
+    b.simple(s);
+    b.steps.push(Step::Emit { ev: "b_holds".into() });
+    b.steps.push(Step::Wait { ev: "c1.done".into() });
+    b.think(rng.range(0, 50));
+    let t = b.tag();
+    b.simple(format!("COMMIT /* {} */", t));
+    b.steps.push(Step::Terminate);
+    let mut cb = client(2, "app", "db", "apppw", 0, b.steps);
+    cb.start = When::After { ev: "a_warm".into(), delay_ms: rng.range(0, 10) };
+    let clients = vec![client(1, "app", "db", "apppw", rng.range(0, 10), a.steps), cb];
+    let net = if rng.chance(0.5) { net_calm() } else { net_swarm(rng) };
+    let mut spec = Spec { config_toml: cfg.render(), hosts: cfg.hosts(), net, clients, end: EndSpec { deadline_ms: 900_000, calm_ms: 500 }, ..Default::default() };
+    spec.params = params_from(&cfg);
+    spec.family = "capacity/last_user_aborts".into();
+    add_final_probes(&mut spec, &cfg, rng);
+    spec.oracles = vec!["c04_bound".into(), "c04_capacity".into(), "c04_usable".into(), "liveness".into()];
+    spec
+}
+
 pub fn c04(rng: &mut Rng, thorough: bool, idx: u64) -> Spec {
     if idx % 3 == 2 {
         return c04_idle_holders(rng, thorough);
+    }
+    if idx % 12 == 7 {
+        return c04_last_user_aborts(rng);
     }
     let faults = idx % 2 == 1;
     let mut mix = Mix::swarm(rng);
